@@ -14,7 +14,7 @@ def evaluate(progs, timeout=3000, dev=()):
     """returns {id: {"src":..., "out":...}} computed by TLC from specs/lang/GlyphCore.tla"""
     work = vf.scratch("verif-lang-")
     path = os.path.join(work, "progs.ndjson")
-    vf.write_ndjson(path, [{"id": p["id"], "body": p["body"], "vars": p["vars"], "funcs": p.get("funcs", [])} for p in progs])
+    vf.write_ndjson(path, [{"id": p["id"], "body": p["body"], "vars": p["vars"], "funcs": p.get("funcs", []), "consts": p.get("consts", [])} for p in progs])
     cases = {}
 
     def sink(c):
